@@ -120,20 +120,47 @@ def createdOk (pre : State) (op : Op) (accepted : Bool) (post : State) : Bool :=
     else (newIds pre post).isEmpty
   | _ => (newIds pre post).isEmpty
 
-/-- the balances `post` must show: `pre` adjusted by the escrow-in of created contracts and by the
-payout of every contract that left the open state in this step -/
-def expectedBank (pre post : State) : Bank :=
-  let b1 := (newIds pre post).foldl (fun b k =>
-    match AMap.get? post.htlcs k with
-    | some c => payCreate b c
-    | none => b) pre.bank
-  pre.htlcs.foldl (fun b (e : Id × Contract) =>
-    match AMap.get? post.htlcs e.1 with
-    | some c' =>
-      if e.2.state == .open && c'.state == .completed then payClaim b e.2
-      else if e.2.state == .open && c'.state == .refunded then payRefund b e.2
-      else b
-    | none => b) b1
+/-! #### the pay-once ledger clause
+
+Every contract record determines, for every account and denom, what the contract has moved so far:
+its escrow-in at creation (plain / outgoing: sender → escrow), its claim payout (plain: escrow →
+recipient; incoming: minted to the recipient; outgoing: burnt from escrow) and its refund (plain /
+outgoing: escrow → sender).  The clause demands that between two observations every balance
+changed by exactly the change of these record-determined amounts — additive in ℕ, independent of
+the order in which a block handles its due contracts. -/
+
+/-- the contract's funds sit in (or went through) the escrow: plain or outgoing -/
+def funded (c : Contract) : Bool := !c.transfer || c.direction == .outgoing
+
+/-- a claim pays the recipient: plain or incoming -/
+def paysTo (c : Contract) : Bool := !c.transfer || c.direction == .incoming
+
+/-- what contract `c` has taken out of account `a` in denom `d` so far -/
+def ledgerOut (a : Addr) (d : Denom) (c : Contract) : Nat :=
+  (if funded c && a == c.sender then coinAmt c.amount d else 0) +
+  (if funded c && c.state != .open && a == escrow then coinAmt c.amount d else 0)
+
+/-- what contract `c` has put into account `a` in denom `d` so far -/
+def ledgerIn (a : Addr) (d : Denom) (c : Contract) : Nat :=
+  (if funded c && a == escrow then coinAmt c.amount d else 0) +
+  (if paysTo c && c.state == .completed && a == c.to then coinAmt c.amount d else 0) +
+  (if funded c && c.state == .refunded && a == c.sender then coinAmt c.amount d else 0)
+
+def outSum (s : State) (a : Addr) (d : Denom) : Nat := AMap.sumBy (ledgerOut a d) s.htlcs
+def inSum (s : State) (a : Addr) (d : Denom) : Nat := AMap.sumBy (ledgerIn a d) s.htlcs
+
+/-- balance of `(a,d)` moved from `pre` to `post` by exactly the contracts' ledger change -/
+def ledgerAt (pre post : State) (a : Addr) (d : Denom) : Bool :=
+  Bank.balOf post.bank a d + outSum post a d + inSum pre a d
+    == Bank.balOf pre.bank a d + outSum pre a d + inSum post a d
+
+/-- the accounts / denoms the two observations mention -/
+def ledgerKeys (pre post : State) : List (Addr × Denom) :=
+  balKeys pre.bank post.bank ++
+  ((pre.htlcs ++ post.htlcs).map fun e =>
+    (e.2.amount.map fun c => [(escrow, c.1), (e.2.sender, c.1), (e.2.to, c.1)]).flatten).flatten
+
+def ledgerOk (pre post : State) : Bool := (ledgerKeys pre post).all fun k => ledgerAt pre post k.1 k.2
 
 /-- an accepted claim completes its contract; a block refunds every contract due in it -/
 def progressOk (pre : State) (op : Op) (accepted : Bool) (post : State) : Bool :=
@@ -186,5 +213,58 @@ def claimLiveOk (pre : State) (op : Op) (accepted : Bool) : Bool :=
 
 /-- no stale queue entry: everything queued is in the future -/
 def queueFutureOk (s : State) : Bool := s.queue.all fun q => decide (s.height < q.1)
+
+
+/-- the explicit block of the operation continues the chain of consecutive heights -/
+def chainOpB (pre : State) (op : Op) : Bool :=
+  match op with
+  | .beginBlock h _ => h == pre.height + 1
+  | _ => true
+
+def isBlockOp : Op → Bool
+  | .beginBlock _ _ => true
+  | .advance _ _ => true
+  | _ => false
+
+/-- nothing at all changed (a rejected message) -/
+def sameTables (a b : State) : Bool :=
+  a.htlcs == b.htlcs && a.queue == b.queue && a.supplies == b.supplies && a.params == b.params &&
+  a.prevTime == b.prevTime && a.height == b.height && a.time == b.time &&
+  sameBalances a.bank b.bank && a.bank.supply == b.bank.supply
+
+/-- clauses common to every htlc monitor: the step did not panic, a block was not aborted -/
+def liveFails (op : Op) (accepted panicked : Bool) : List String :=
+  (if panicked then ["panic"] else []) ++
+  (if isBlockOp op && !accepted then ["begin-block-aborted"] else [])
+
+/-- **the C03 monitor**: names of the clauses that fail on the step `pre --op--> post` with the
+given verdict.  `consecutive`: all explicit blocks of the history so far, this one included,
+continued the chain of heights (`chainOpB`). -/
+def stepFails (consecutive : Bool) (pre : State) (op : Op) (accepted panicked : Bool) (post : State) : List String :=
+  liveFails op accepted panicked ++
+  (if automatonOk pre op accepted post then [] else ["automaton"]) ++
+  (if createdOk pre op accepted post then [] else ["created"]) ++
+  (if progressOk pre op accepted post then [] else ["progress"]) ++
+  (if ledgerOk pre post then [] else ["paid-once"]) ++
+  (if !accepted && !(sameTables pre post) then ["rejected-moves-nothing"] else []) ++
+  (if claimLiveOk pre op accepted then [] else ["right-secret-rejected"]) ++
+  (if queueOk post then [] else ["queue-bijection"]) ++
+  (if consecutive && queueFutureOk pre then
+     (if claimInTime pre op accepted then [] else ["claim-after-expiry"]) ++
+     (if queueFutureOk post then [] else ["stale-queue-entry"])
+   else [])
+
+/-- **the HTLC slice of the C13 monitor** -/
+def stepFails13 (consecutive : Bool) (pre : State) (op : Op) (accepted panicked : Bool) (post : State) : List String :=
+  liveFails op accepted panicked ++
+  (if progressOk pre op accepted post then [] else ["due-not-processed"]) ++
+  (if automatonOk pre op accepted post then [] else ["processed-exactly-once"]) ++
+  (if queueOk post then [] else ["queue-bijection"]) ++
+  (if consecutive && queueFutureOk pre then
+     (if queueFutureOk post then [] else ["stale-queue-entry"])
+   else [])
+
+/-- the clauses evaluated on the observation of a reset line (C03 and C13) -/
+def resetFails (s : State) : List String := if queueOk s then [] else ["queue-bijection"]
 
 end Irismod.Spec.C03
